@@ -28,7 +28,7 @@ TOKENS = ["foo", "foobar", "foo-x", "bar"]
 CLASS_INITS = [None, "foo", "foo bar", " foo  foobar ", "bar foo bar", "foo\tbar\nfoo-x", ["H", "foo"],
                ["H", "a&amp;b foo"]]
 STYLE_OK = ["a:b;", "c:d;", ["H", "e:f;"]]
-STYLE_BAD = ["a:b", "a:b; ", ""]
+STYLE_BAD = ["a:b", "a:b; ", "", ["H", "g:h"], ["H", "g:h; "]]
 STYLE_INITS = [None, "x:y;"]
 
 
